@@ -212,4 +212,13 @@ def bareSafe (hasSpace : Bool) (w : Bytes) : Bool :=
     !hasSpace && !w.any isOpByte && c != 45 && c != 42 && c != 34 && c != 47 &&
       w != Bytes.ofString "AND" && w != Bytes.ofString "OR"
 
+/-- the documented bare word in a projection (key, or member of a fixed list): `/` is an ordinary
+character there — projections have no regexps -/
+def bareSafeProj (hasSpace : Bool) (w : Bytes) : Bool :=
+  match w with
+  | [] => false
+  | c :: _ =>
+    !hasSpace && !w.any isOpByte && c != 45 && c != 42 && c != 34 &&
+      w != Bytes.ofString "AND" && w != Bytes.ofString "OR"
+
 end Spec.Expr
